@@ -39,6 +39,8 @@ def run(ctx):
     ctx.rule("R7.removal-authority", "RawOpaquePool::remove / remove_unpin callers are the table of unique-handle Drop, into_inner and Remover Drop impls (plus the raw/blind forwarding wrappers)", floor=10)
     ctx.rule("R10.drop-policy-provenance", "every slab is created with the owning pool's slab_layout and drop_policy fields; every pool constructor/builder hands the configured policy on unchanged", floor=5)
     ctx.rule("R11.lowest-vacancy-cache", "the vacancy cache always names the LOWEST slab with a vacancy: a new vacancy below the cached index (or with no cached index) replaces it - the refill search after a slab fills only looks forward", floor=2)
+    ctx.rule("R13.builder-steps-carry-options", "every by-value step of the pool builders returns self with all other options intact (no `..Default::default()` rebuild): a lost drop policy silently changes what the pool does with live objects on drop", floor=4)
+    ctx.rule("R14.free-list-head", "Slab::next_free_slot_index is only initialised, advanced to the filled slot's stored next index, or set to the released slot's index", floor=3)
     ctx.rule("R12.counts-are-not-positions", "no slab index, slab/slot scan bound or iterator cursor derives from an object count (RawOpaquePool::length, Slab::count): holes make counts useless as positions", floor=10)
     ctx.rule("R9.shrink-keeps-live", "shrink_to_fit only drops trailing EMPTY slabs (a non-empty slab dropped = objects destroyed while handles exist); same rule as C01.R3", floor=1, shape_dependent=True)
     ctx.rule("R8.slab-drop", "Slab::drop: emptiness read first; every slot dropped under catch_unwind in a loop over 0..capacity; dealloc on every path before resume_unwind/policy assert", floor=4)
@@ -406,6 +408,8 @@ def run(ctx):
     policy_rules(ctx, prog)
     vacancy_cache_rules(ctx, prog)
     counts_are_not_positions(ctx, prog, "R12.counts-are-not-positions")
+    builder_steps_rule(ctx, prog, "R13.builder-steps-carry-options")
+    free_list_rule(ctx, prog, "R14.free-list-head")
 
     # ---------------- R8 Slab::drop
     sd = prog.one("<infinity_pool::opaque::slab::Slab as std::ops::Drop>::drop")
@@ -464,6 +468,21 @@ def run(ctx):
         ok = g_pan and g_pol and g_emp and de[0][0] in dom[pbb] if de else False
         det = f"policy panic guarded by thread::panicking()={g_pan}, drop_policy={g_pol}, saved emptiness flag={g_emp}"
     ctx.ob("R8.slab-drop", "policy-panic-guards", ok, sd.loc(), det)
+    shared_rules(ctx, prog)
+
+
+def shared_rules(ctx, prog):
+    # ---------------- rules shared with the sibling properties anchored in the same functions
+    ctx.import_rules("C01", {
+        "R2.slab-vector": "handles store slab_index: a re-ordered slab vector makes remove() destroy a different object",
+        "R9.vacancy-block-writes": "a vacancy block overwritten wholesale marks full slabs vacant; the next insert overwrites a live object without destroying it",
+        "R7.vacancy-resize-contract": "same: new bitmap blocks must start all-vacant and old ones stay untouched",
+    })
+    ctx.import_rules("C04", {
+        "R4.restore-before-destroy": "a destructor that panics after part of the bookkeeping leaves len() and the slot tags disagreeing",
+        "R3.before-ok-premise": "a slab pushed without telling the vacancy tracker is lost to accounting when the initialiser panics",
+    })
+
 
 
 def deep_slice(prog, body, op, depth=3):
@@ -723,13 +742,86 @@ def slab_vector_pairing(ctx, prog, rid, fnames):
         ctx.ob(rid, f"{fname}.update_slab_count", ok, b.loc(),
                f"slab-vector mutations {[callee_key(t['callee']).split('::')[-1] for _, t in mut]} are each followed on every path by update_slab_count(slabs.len())")
 
-    # ---------------- rules shared with the sibling properties anchored in the same functions
-    ctx.import_rules("C01", {
-        "R2.slab-vector": "handles store slab_index: a re-ordered slab vector makes remove() destroy a different object",
-        "R9.vacancy-block-writes": "a vacancy block overwritten wholesale marks full slabs vacant; the next insert overwrites a live object without destroying it",
-        "R7.vacancy-resize-contract": "same: new bitmap blocks must start all-vacant and old ones stay untouched",
-    })
-    ctx.import_rules("C04", {
-        "R4.restore-before-destroy": "a destructor that panics after part of the bookkeeping leaves len() and the slot tags disagreeing",
-        "R3.before-ok-premise": "a slab pushed without telling the vacancy tracker is lost to accounting when the initialiser panics",
-    })
+# ------------------------------------------------------------------ R13: builder steps carry every option on
+def builder_steps_rule(ctx, prog, rid):
+    """Every by-value option setter of the pool builders (`fn opt(self, ..) -> Self`) returns `self` with the other options intact:
+    a builder value constructed inside a step takes each field it does not set from `self` (not from Default / new / a constant)."""
+    n = 0
+    for b in prog.bodies:
+        if not b.key.startswith("infinity_pool::builders::") or b.is_closure or b.arg_count < 1 or "::tests" in b.key:
+            continue
+        sty = b.local_ty(1)
+        rty = b.local_ty(0)
+        if sty["k"] != "adt" or strip_generics(sty["s"]) != strip_generics(rty["s"]) or "::builders::" not in sty["s"]:
+            continue
+        adt_path = strip_generics(sty["s"])
+        adt = prog.adts.get(adt_path) or next((a for p_, a in prog.adts.items() if strip_generics(p_) == adt_path), None)
+        if adt is None:
+            continue
+        n += 1
+        ctx.fn(b)
+        rsl = Slice(b).run({"k": "copy", "place": {"l": 0, "p": []}})
+        ok = 1 in rsl["args"]
+        det = [f"result derives from self: {ok}"]
+        for blk in b.blocks:
+            for st in blk.stmts:
+                if st["k"] == "assign" and st["rv"]["k"] == "aggr" and strip_generics(str(st["rv"].get("adt", ""))) == adt_path:
+                    names = st["rv"].get("fields") or []
+                    for i, f in enumerate(names):
+                        sl = Slice(b).run(st["rv"]["ops"][i])
+                        from_self = 1 in sl["args"] and any(x.endswith("::" + f) for x in sl["fields"])
+                        from_param = bool(sl["args"] - {1}) or any(ta for ta in [])
+                        phantom = "PhantomData" in str(b.local_ty(op_local(st["rv"]["ops"][i]))["s"]) if op_local(st["rv"]["ops"][i]) is not None else st["rv"]["ops"][i].get("k") == "const" and "PhantomData" in st["rv"]["ops"][i].get("text", "")
+                        set_here = not from_self and not (1 in sl["args"]) and (from_param or any(k.endswith(("Layout::new", "Some")) for k, _b, _t in sl["calls"]) or
+                                                                                  any(c.get("variant") == "Some" for c in sl["consts"]))
+                        if not (from_self or phantom):
+                            # at most the option this step is about may come from elsewhere; everything else must be self's
+                            others = [x for x in names if x != f]
+                            det.append(f"field `{f}` not taken from self ({'set by this step' if set_here else 'from ' + str(sorted({k.split('::')[-1] for k, _b, _t in sl['calls']}) or 'a constant')})")
+                            if not set_here:
+                                ok = False
+                    # more than one field not from self = options lost
+                    lost = [f for i, f in enumerate(names) if not (1 in Slice(b).run(st["rv"]["ops"][i])["args"]) and
+                            not (op_local(st["rv"]["ops"][i]) is not None and "PhantomData" in b.local_ty(op_local(st["rv"]["ops"][i]))["s"])]
+                    if len(lost) > 1:
+                        ok = False
+                        det.append(f"fields rebuilt without self: {lost}")
+        ctx.ob(rid, f"{adt_path.split('::')[-1]}::{b.name}", ok, b.loc(), "; ".join(det))
+    if n == 0:
+        ctx.missing(rid, "by-value builder steps in infinity_pool::builders")
+
+
+# ------------------------------------------------------------------ R14: the intrusive free list
+def free_list_rule(ctx, prog, rid):
+    """`Slab::next_free_slot_index` is the head of an intrusive, arbitrarily ordered free list: it is only ever (a) initialised
+    by Slab::new, (b) advanced to the index stored in the slot being filled (insert), (c) set to the index of the slot just
+    released (remove / remove_unpin). Any other value (a constant, a count) drops or duplicates list entries."""
+    FIELD = "Slab::next_free_slot_index"
+    n = 0
+    for b in prog.bodies:
+        if not b.key.startswith("infinity_pool::opaque::slab::") or "::tests" in b.key:
+            continue
+        for bb, i, st in field_assigns(b, FIELD):
+            n += 1
+            ctx.fn(b)
+            sl = Slice(b, through_calls=False).run(st["rv"]["op"]) if st["rv"]["k"] == "use" else {"calls": [], "args": set(), "consts": [st["rv"].get("op", {})] if st["rv"].get("k") == "use" else [{"val": "?"}], "fields": set()}
+            names = {k.split("::")[-1] for k, _b, _t in sl["calls"]}
+            root = b.key.split("::{closure")[0].split("::")[-1]
+            if root in ("remove", "remove_unpin"):
+                idx_calls = [t_ for k_, _b, t_ in sl["calls"] if k_.split("::")[-1] == "index" and t_["args"]]
+                from_handle = any(2 in Slice(b).run(t_["args"][0])["args"] for t_ in idx_calls)
+                ok = bool(idx_calls) and from_handle and not [c for c in sl["consts"] if "val" in c]
+                why = f"value = handle.index(): {ok}"
+            elif root in ("insert_with_unchecked", "insert", "insert_with", "insert_unchecked"):
+                ok = any(f.endswith(("next_free_slot_index", "SlotMeta::Vacant", "Vacant::next_free_slot_index")) or "Vacant" in f for f in sl["fields"]) or "replace" in names
+                ok = ok and not [c for c in sl["consts"] if "val" in c and c.get("ty", "").startswith(("usize", "u"))]
+                why = f"value = the next index stored in the slot being filled: {ok}"
+            elif root == "new":
+                ok = True
+                why = "initialisation"
+            else:
+                ok = False
+                why = f"written in {root}, which is not a free-list operation"
+            ctx.ob(rid, f"{root}:free-list-head#{n}", ok, b.loc(st["span"]), why + f" (derives via {sorted(names)[:6]}, constants {[c.get('val') for c in sl['consts'] if 'val' in c][:4]})")
+    if n == 0:
+        ctx.missing(rid, "assignments to Slab::next_free_slot_index")
